@@ -35,6 +35,7 @@ DATA = {
     "d2": [[2.5, 1.0], [2.5, 1.0], [2.5, 1.0], [-3.0, 0.0]],
     "e3": [[0.0, 1.0, 2.5], [1.0, 1.0, -3.0], [10.0, 0.0, 0.5], [9.0, 2.5, 0.0], [9.5, 2.0, 0.25]],
     "f2": [[0.1, 1 / 3], [0.7, 0.2], [3.3, 2.2], [3.1, 2.9], [0.2, 0.25]],
+    "g2": [[0.0, 0.0], [1.0, 0.0], [0.0, 1.0], [1.0, 1.0], [10.0, 10.0], [11.0, 10.0], [10.0, 12.0], [20.0, 0.0], [21.0, 1.0], [19.0, -1.0], [22.0, 0.0]],
 }
 OFFSETS = [0.0, 1000.1, 2.0**20, 1e6 + 0.1, 1e8 + 0.7]
 
@@ -62,7 +63,7 @@ def _centroid_sets(X, K):
 
 def cases(tier, seed):
     out = []
-    names = ["a1", "b1", "c2", "d2", "e3"] if tier == "quick" else list(DATA)
+    names = ["a1", "b1", "c2", "d2", "e3", "g2"] if tier == "quick" else list(DATA)
     offs = OFFSETS if tier == "thorough" else [0.0, 1000.1, 2.0**20, 1e8 + 0.7]
     for name in names:
         for off in offs:
@@ -114,7 +115,10 @@ def run_case(case):
             c.check(p1.shape == (1,) and int(p1[0]) == labels[i], "single", lambda: f"predict(single sample) = {p1.tolist()} want {labels[i]}", tags)
         c.transitions += 2
     # (3) dask: every row composition
-    comps = compositions(n) if (n <= 5 or case["tier"] == "thorough") else [cp for cp in compositions(n) if len(cp) <= 3]
+    if n > 8:
+        comps = [(n,), (1, n - 1), (4, n - 4), tuple([1] * n), tuple([1] * (n - 2) + [2]), (3, 3, n - 6)]  # up to n single-row blocks (> 8)
+    else:
+        comps = compositions(n) if (n <= 5 or case["tier"] == "thorough") else [cp for cp in compositions(n) if len(cp) <= 3] + [tuple([1] * n)]
     w_f, var_f, _, _ = ok.cluster_moments(Xf, Cf)
     want_w = np.array([float(v) for v in w_f])
     want_v = np.array([[float(v) for v in row] if row is not None else [0.0] * D for row in var_f])
@@ -154,8 +158,11 @@ def run_case(case):
             break
     # (4) GMM initialised from k-means: exactly (centroids, max(variance, floor), weights); then one EM step
     if not tie and nonempty == K and not c.viol:
-        for kind in ("np", comps[-1]):
-            A = X.copy() if kind == "np" else da.from_array(X.copy(), chunks=(kind, (D,)))
+        kinds_g = ["np", comps[-1]]
+        if np.all(X == np.round(X)) and np.abs(X).max() < 2**31:
+            kinds_g.append("np_int")  # integer-valued data held in an integer array: the model must still be real-valued and exact
+        for kind in kinds_g:
+            A = X.copy() if kind == "np" else (X.astype(np.int64) if kind == "np_int" else da.from_array(X.copy(), chunks=(kind, (D,))))
             for floor in (None, 0.5 * s * s):
                 g = GMMMachine(K, k_means_trainer=KMeansMachine(K, init_method=C0.copy(), max_iter=0), max_fitting_steps=0,
                                update_means=True, update_variances=True, update_weights=True)
